@@ -132,6 +132,32 @@ Proof.
 Qed.
 Print Assumptions C13_specific_equals_generic.
 
+(* the constructors of the Normalized* / Difficulty* classes only forward to their base class; the chain of super().__init__ calls is
+   re-translated from the source on every run (harness/translate/wiring.py -> Gen/Wiring.v: the tuple of the values that reach the
+   General* constructor, keywords in alphabetical order, closed over stepper/generic).  A Normalized class is the General class on the
+   unit domain with unit time step and the given coefficients / flags / numerics; a Difficulty class is the Normalized class with the
+   coefficients extracted by the conversion functions of Gen/GenericUtils.v (themselves translated, inverses by C13_difficulty_inverses);
+   the simple linear difficulty puts its one value behind `order` zeros. *)
+From EXV Require Import Gen.Wiring.
+Theorem C13_code_constructor_wiring : forall (K : Ops) (D N ord M : Z) (a nl pl : list K) (b g frac R mabs : K) (sc cons : bool),
+  let eL := extract_normalized_coefficients_from_difficulty K (fz D) (fz N) in
+  gen_wire_NormalizedLinearStepper K D N a = (fz 1, fz 1, a, N, D)
+  /\ gen_wire_DifficultyLinearStepper K D N a = gen_wire_NormalizedLinearStepper K D N (eL a)
+  /\ gen_wire_DifficultyLinearStepperSimple K D N g ord = gen_wire_DifficultyLinearStepper K D N (repeat (fz 0) (Z.to_nat ord) ++ [g])
+  /\ gen_wire_NormalizedConvectionStepper K D N a b sc cons ord frac M R = (R, cons, b, frac, fz 1, fz 1, a, M, N, D, ord, sc)
+  /\ gen_wire_DifficultyConvectionStepper K D N a b sc cons mabs ord frac M R
+     = gen_wire_NormalizedConvectionStepper K D N (eL a) (extract_normalized_convection_scale_from_difficulty K (fz D) (fz N) mabs b) sc cons ord frac M R
+  /\ gen_wire_NormalizedGradientNormStepper K D N a b ord frac M R = (R, frac, fz 1, fz 1, b, a, M, N, D, ord)
+  /\ gen_wire_DifficultyGradientNormStepper K D N a b mabs ord frac M R
+     = gen_wire_NormalizedGradientNormStepper K D N (eL a) (extract_normalized_gradient_norm_scale_from_difficulty K (fz D) (fz N) mabs b) ord frac M R
+  /\ gen_wire_NormalizedNonlinearStepper K D N a nl ord frac M R = (R, frac, fz 1, fz 1, a, nl, M, N, D, ord)
+  /\ gen_wire_DifficultyNonlinearStepper K D N a nl mabs ord frac M R
+     = gen_wire_NormalizedNonlinearStepper K D N (eL a) (extract_normalized_nonlinear_scales_from_difficulty K (fz D) (fz N) mabs nl) ord frac M R
+  /\ gen_wire_NormalizedPolynomialStepper K D N a pl ord frac M R = (R, frac, fz 1, fz 1, a, M, N, D, ord, pl)
+  /\ gen_wire_DifficultyPolynomialStepper K D N a pl ord frac M R = gen_wire_NormalizedPolynomialStepper K D N (eL a) pl ord frac M R.
+Proof. intros. splits; reflexivity. Qed.
+Print Assumptions C13_code_constructor_wiring.
+
 (* non-vacuity over the rationals *)
 From Coq Require Import Qcanon.
 Example C13_ex : map this (normalize_coefficients QcField (Q2Qc 2) (Q2Qc (1 # 4)) [Q2Qc 3; Q2Qc 5; Q2Qc 8])
